@@ -5,6 +5,7 @@ package c17
 import (
 	"encoding/json"
 	"fmt"
+	"io"
 	"net/http"
 	"net/http/httptest"
 	"os"
@@ -12,6 +13,7 @@ import (
 	"sync"
 	"sync/atomic"
 	"testing"
+	"time"
 
 	"github.com/google/martian/v3/har"
 	"pgregory.net/rapid"
@@ -373,7 +375,38 @@ type ConcCase struct {
 	Exporters   []string `json:"exporters"` // one string of E/X ops per exporter goroutine
 	Handlers    bool     `json:"handlers,omitempty"`
 	Yield       int      `json:"yield"` // Gosched calls between producer steps
+	// Dups: number of IDs for which several goroutines call RecordRequest at
+	// the same moment (POST bodies whose reads yield the processor): exactly one
+	// call per ID may succeed, and the ID must be in the log once.
+	Dups       int `json:"dups,omitempty"`
+	Contenders int `json:"contenders,omitempty"`
 }
+
+// yieldingBody is a request body whose reads give other goroutines a chance to run.
+type yieldingBody struct {
+	data []byte
+	off  int
+}
+
+func (b *yieldingBody) Read(p []byte) (int, error) {
+	runtimeGosched()
+	if b.off >= len(b.data) {
+		return 0, io.EOF
+	}
+	n := 1 + len(b.data)/4
+	if n > len(p) {
+		n = len(p)
+	}
+	if b.off+n > len(b.data) {
+		n = len(b.data) - b.off
+	}
+	copy(p, b.data[b.off:b.off+n])
+	b.off += n
+	time.Sleep(50 * time.Microsecond)
+	return n, nil
+}
+
+func (b *yieldingBody) Close() error { return nil }
 
 type exportObs struct {
 	kind       byte
@@ -463,6 +496,23 @@ func runConcurrent(c ConcCase) kit.Verdict {
 			}
 		}(p)
 	}
+	dupOK := make([]int32, c.Dups)
+	for d := 0; d < c.Dups; d++ {
+		for k := 0; k < c.Contenders; k++ {
+			wg.Add(1)
+			go func(d, k int) {
+				defer wg.Done()
+				id := fmt.Sprintf("dup-%d", d)
+				req, _ := http.NewRequest("POST", "http://example.com/"+id+"?m=dup", nil)
+				req.Body = &yieldingBody{data: []byte("contender body of some length")}
+				req.ContentLength = -1
+				req.Header.Set("Content-Type", "text/plain")
+				if err := l.RecordRequest(id, req); err == nil {
+					atomic.AddInt32(&dupOK[d], 1)
+				}
+			}(d, k)
+		}
+	}
 	for _, prog := range c.Exporters {
 		wg.Add(1)
 		go func(prog string) {
@@ -474,6 +524,22 @@ func runConcurrent(c ConcCase) kit.Verdict {
 		}(prog)
 	}
 	wg.Wait()
+	for d := 0; d < c.Dups; d++ {
+		id := fmt.Sprintf("dup-%d", d)
+		if n := atomic.LoadInt32(&dupOK[d]); n != 1 {
+			fails.Addf("C17/concurrent/duplicate-id/accepted-count", "%d concurrent RecordRequest calls for ID %s: %d succeeded, want exactly 1", c.Contenders, id, n)
+		}
+		n := 0
+		for _, e := range l.Export().Log.Entries {
+			if e.ID == id {
+				n++
+			}
+		}
+		if n != 1 {
+			fails.Addf("C17/concurrent/duplicate-id/entries-in-log", "after %d concurrent RecordRequest calls ID %s is in the log %d times, want 1", c.Contenders, id, n)
+		}
+		l.RecordResponse(id, mkRes(mkReq(id, "dup"), "r-dup"))
+	}
 	doExport('X') // final drain
 	doExport('E') // must be empty now
 	if len(fails) > 0 {
@@ -490,6 +556,12 @@ func runConcurrent(c ConcCase) kit.Verdict {
 				return kit.Failf("C17/concurrent/duplicate-in-one-export", "%c returned %s twice: %v", o.kind, id, o.ids)
 			}
 			seenIn[id] = true
+			if strings.HasPrefix(id, "dup-") {
+				if o.kind == 'X' {
+					returned[id]++
+				}
+				continue
+			}
 			var p, i int
 			fmt.Sscanf(id, "p%d-%d", &p, &i)
 			key := fmt.Sprint(p)
@@ -515,6 +587,15 @@ func runConcurrent(c ConcCase) kit.Verdict {
 				return kit.Failf("C17/concurrent/completed-entry-not-returned-exactly-once", "entry %s was returned by %d ExportAndReset calls over the life of the log (want 1; %d entries in total)", id, returned[id], total)
 			}
 		}
+	}
+	for d := 0; d < c.Dups; d++ {
+		id := fmt.Sprintf("dup-%d", d)
+		if returned[id] != 1 && len(fails) == 0 {
+			return kit.Failf("C17/concurrent/duplicate-id/returned-count", "ID %s (recorded by concurrent callers) was returned by %d ExportAndReset calls, want 1", id, returned[id])
+		}
+	}
+	if len(fails) > 0 {
+		return fails
 	}
 	// real-time order: an entry removed by an ExportAndReset that returned
 	// before a later export started must not be in that later export; an entry
@@ -561,10 +642,14 @@ var propConcurrent = &kit.Prop[ConcCase]{
 		return c.Producers >= 2 && strings.Contains(strings.Join(c.Exporters, ""), "X")
 	},
 	Classes: func(c ConcCase) []string {
+		var out []string
 		if c.Handlers {
-			return []string{"through-handlers"}
+			out = append(out, "through-handlers")
 		}
-		return nil
+		if c.Dups > 0 {
+			out = append(out, "concurrent-duplicate-ids")
+		}
+		return out
 	},
 	Gen: func(t *rapid.T) ConcCase {
 		c := ConcCase{
@@ -572,6 +657,10 @@ var propConcurrent = &kit.Prop[ConcCase]{
 			PerProducer: rapid.IntRange(1, 40).Draw(t, "per_producer"),
 			Handlers:    rapid.Bool().Draw(t, "handlers"),
 			Yield:       rapid.IntRange(0, 3).Draw(t, "yield"),
+		}
+		if rapid.Bool().Draw(t, "has_dups") {
+			c.Dups = rapid.IntRange(1, 3).Draw(t, "dups")
+			c.Contenders = rapid.IntRange(2, 4).Draw(t, "contenders")
 		}
 		ne := rapid.IntRange(1, 3).Draw(t, "exporters")
 		for i := 0; i < ne; i++ {
